@@ -116,9 +116,20 @@ def run(ctx):
             documents.append(docs.mutate(rng, d))
     for _ in range(400 if ctx.tier == "thorough" else 60):
         documents.append(docs.soup(rng, rng.randrange(1, 60)))
+    # every literal spelling the grammar tokenises (escape forms, backslash + any character), as a binding value and as an import source
+    from . import c03
+    nlit = 0
+    for b, _ in c03.string_bodies(rng, 300 if ctx.tier == "thorough" else 60):
+        if "\n" in b or "\r" in b:
+            continue
+        documents.append('import qmluic.QtWidgets\nQLabel { text: "%s" }\n' % b)
+        documents.append("import qmluic.QtWidgets\nQLabel { text: qsTr('%s') + \"%s\" }\n" % (b.replace("'", ""), b))
+        nlit += 2
+    documents.append('import "\\é"\nQLabel { }\n')
+    ctx.dist("doc-literal-spelling", nlit + 1)
     if ctx.replay and isinstance(ctx.replay.get("case"), str):
         documents = [ctx.replay["case"]]
-    ctx.dist("doc-corpus", len(base)); ctx.dist("doc-mutant", len(base) * nmut); ctx.dist("doc-soup", len(documents) - len(base) * (1 + nmut))
+    ctx.dist("doc-corpus", len(base)); ctx.dist("doc-mutant", len(base) * nmut); ctx.dist("doc-soup", 400 if ctx.tier == "thorough" else 60)
     os.environ["VERIF_EXTRA_METATYPES"] = ""
     outcomes = {}
     for mode in ("generate", "reject", "omit"):
